@@ -887,9 +887,11 @@ class AbsInt:
         """All outcomes of thunk().  merge=False keeps paths apart that end the same way (for callers that read the recorded
         events of one path as if it were the only one)."""
         outer_bounds = {k: list(b) for k, b in LEN_BOUNDS.items()}
+        self._explore_nesting = getattr(self, '_explore_nesting', 0) + 1
         try:
             return self._explore(thunk, limit, outer_bounds, merge)
         finally:
+            self._explore_nesting -= 1
             LEN_BOUNDS.clear()
             LEN_BOUNDS.update(outer_bounds)
 
@@ -905,6 +907,13 @@ class AbsInt:
             EVENT_LOG.clear()
             LEN_BOUNDS.clear()
             LEN_BOUNDS.update({k: list(b) for k, b in outer_bounds.items()})        # (what the caller assumes holds on every path)
+            if getattr(self, '_explore_nesting', 0) <= 1:
+                self.steps = 0          # (the budget is per path)
+                self.__dict__.pop('_mutable_defaults', None)        # one-per-function / one-per-class objects are made anew:
+                self.__dict__.pop('_class_body_cache', None)        # every path is a fresh process
+                # every path starts from the state the modules are imported with: what an earlier path (or an earlier rule)
+                # did to a module-level state object is undone
+                self.f.restore_global_objects()
             try:
                 v = self.consume(thunk())
                 out = Outcome('return', v)
@@ -1167,6 +1176,13 @@ class AbsInt:
         dd = getattr(self, '_def_defaults', None)
         if dd is not None and (info.qname, key) in dd:
             return dd[(info.qname, key)]
+        if isinstance(expr, (ast.List, ast.Dict, ast.Set, ast.ListComp, ast.DictComp, ast.SetComp)) or \
+                (isinstance(expr, ast.Call) and isinstance(expr.func, ast.Name) and expr.func.id in ('list', 'dict', 'set', 'bytearray', 'deque')):
+            # a mutable default is ONE object for all calls: what one call puts into it the next call finds there
+            cache = self.__dict__.setdefault('_mutable_defaults', {})
+            if (info.qname, key) not in cache:
+                cache[(info.qname, key)] = self.ev_default(expr, info.module)
+            return cache[(info.qname, key)]
         return self.ev_default(expr, info.module)
 
     def ev_default(self, expr, module):
@@ -1323,7 +1339,20 @@ class AbsInt:
                     self.ex_block(st.orelse, env, m)
                 return
             broke = False
-            for item in self.iterate(it, st):
+            if isinstance(it, AList) and it.kind == 'list' and not it.has_var():
+                # a list is walked by position, over the list as it is at each step: a body that removes the item it is looking
+                # at makes the loop step over the next one, one that appends gets to see what it appended
+                def live_items(al=it):
+                    i_ = 0
+                    while i_ < len(al.items):
+                        if i_ > 4096:
+                            raise Unsupported(f'loop over a list that keeps growing at line {st.lineno}')
+                        yield al.items[i_]
+                        i_ += 1
+                walk = live_items()
+            else:
+                walk = self.iterate(it, st)
+            for item in walk:
                 self.assign(st.target, item, env, m)
                 try:
                     self.ex_block(st.body, env, m)
@@ -1633,10 +1662,17 @@ class AbsInt:
             args = self._elts(item.context_expr.args, env, m)
             kwargs = {kw.arg: self.ev(kw.value, env, m) for kw in item.context_expr.keywords if kw.arg}
 
+            left_by = []
+
             def at_yield(value):
                 if item.optional_vars is not None:
                     self.assign(item.optional_vars, value, env, m)
-                self.ex_with(st, i + 1, env, m)
+                try:
+                    self.ex_with(st, i + 1, env, m)
+                except (_Ret, _Brk, _Cont) as cf:
+                    # return / break / continue in the with-body: the manager is left normally (its generator goes on after
+                    # the yield), then the jump happens
+                    left_by.append(cf)
             self._cm_stack.append(at_yield)
             self._cm_pending = at_yield
             try:
@@ -1644,6 +1680,8 @@ class AbsInt:
             finally:
                 self._cm_pending = None
                 self._cm_stack.pop()
+            if left_by:
+                raise left_by[0]
             return
         v = self.ev(item.context_expr, env, m)
         if isinstance(v, AGen) and getattr(v, 'info', None) is not None and any(
@@ -1651,15 +1689,22 @@ class AbsInt:
                 for d in v.info.node.decorator_list):
             # the manager object was made somewhere else (a helper method returning meta_charset(...)): nothing of its body has
             # run yet, it is entered here
+            left_by2 = []
+
             def at_yield2(value):
                 if item.optional_vars is not None:
                     self.assign(item.optional_vars, value, env, m)
-                self.ex_with(st, i + 1, env, m)
+                try:
+                    self.ex_with(st, i + 1, env, m)
+                except (_Ret, _Brk, _Cont) as cf:
+                    left_by2.append(cf)
             self._cm_stack.append(at_yield2)
             try:
                 self.run_generator(v, at_yield2)
             finally:
                 self._cm_stack.pop()
+            if left_by2:
+                raise left_by2[0]
             return
         if isinstance(v, tuple) and len(v) == 2 and v[0] in ('nullctx', 'closingctx'):
             if item.optional_vars is not None:
@@ -1754,6 +1799,11 @@ class AbsInt:
         names = handler_names(h)
         if h.type is not None:
             for x in (h.type.elts if isinstance(h.type, ast.Tuple) else [h.type]):
+                if isinstance(x, ast.Attribute) and isinstance(x.value, ast.Name) and x.value.id in env and not x.value.id.startswith('__') \
+                        and (hasattr(env[x.value.id], 'absint_getattr') or isinstance(env[x.value.id], AObj)):
+                    # `except (A, name.attr)` where name is a local variable holding an object (a parameter that shadows the
+                    # module of the same name): the expression is evaluated when an exception gets here, and may itself fail
+                    self.ev(x, env, m)
                 r = self._exc_class_name(x, env, m)
                 if r is not None and r not in names:
                     names.append(r)
@@ -2064,7 +2114,17 @@ class AbsInt:
                 if v is not None:
                     try:
                         # (names in a class body are those of the module the class that has the attribute is written in)
-                        cv = self.f.eval(v, {}, next((k for k in self.p.mro(base.cls) if e.attr in k.attrs), base.cls).module)
+                        owner_ = next((k for k in self.p.mro(base.cls) if e.attr in k.attrs), base.cls)
+                        if isinstance(v, (ast.Set, ast.List, ast.Dict, ast.SetComp, ast.ListComp, ast.DictComp)):
+                            # a mutable container written in the class body is ONE object, shared by every instance that has
+                            # not bound the name itself: "self.names |= more" changes it for all of them
+                            cache_ = self.__dict__.setdefault('_class_body_cache', {})
+                            ck_ = (owner_.qname, e.attr)
+                            if ck_ not in cache_:
+                                cache_[ck_] = self.f.eval(v, {}, owner_.module)
+                            cv = cache_[ck_]
+                        else:
+                            cv = self.f.eval(v, {}, owner_.module)
                     except Unfoldable:
                         cv = self._class_body_value(base.cls, e.attr, v)
                         if cv is None:
@@ -3105,7 +3165,31 @@ class AbsInt:
         self._comp(e.generators, env, m, emit)
         return AList(out, 'list')
 
-    _v_GeneratorExp = _v_ListComp
+    def _v_GeneratorExp(self, e, env, m):
+        """A generator expression handed straight to a consumer (any(...), sum(...), ', '.join(...), list(...)) is evaluated
+        on the spot, as the consumer would make it.  One that is kept - bound to a name, returned - is a generator object:
+        only its outermost iterable is evaluated now, the rest runs when somebody iterates it, in the state of that moment."""
+        par = getattr(e, '_parent', None)
+        if not isinstance(par, (ast.Assign, ast.AnnAssign, ast.Return)) or m is None:
+            return self._v_ListComp(e, env, m)
+        cache = self.__dict__.setdefault('_genexp_defs', {})
+        fd = cache.get(id(e))
+        if fd is None:
+            body = [ast.Expr(value=ast.Yield(value=e.elt))]
+            for gi, g in reversed(list(enumerate(e.generators))):
+                for c in reversed(g.ifs):
+                    body = [ast.If(test=c, body=body, orelse=[])]
+                it = ast.Name(id='__genexp_it0__', ctx=ast.Load()) if gi == 0 else g.iter
+                body = [ast.For(target=g.target, iter=it, body=body, orelse=[])]
+            fd = ast.FunctionDef(name='<genexpr>', args=ast.arguments(posonlyargs=[], args=[], vararg=None, kwonlyargs=[], kw_defaults=[], kwarg=None,
+                                                                        defaults=[]), body=body, decorator_list=[], returns=None)
+            ast.copy_location(fd, e)
+            ast.fix_missing_locations(fd)
+            cache[id(e)] = fd
+        from .model import FuncInfo as _FI
+        genv = {k: v for k, v in env.items()}
+        genv['__genexp_it0__'] = self.ev(e.generators[0].iter, env, m)
+        return AGen(_FI('<genexpr>', m, fd), genv, m)
 
     def _v_SetComp(self, e, env, m):
         r = self._v_ListComp(e, env, m)
@@ -3447,6 +3531,14 @@ class AbsInt:
             key = f.name
             if key in self.summaries:
                 return self.summaries[key](self, args, kwargs, node)
+            if key in ('struct.pack', 'struct.unpack', 'struct.calcsize') and not kwargs and args and isinstance(args[0], str) \
+                    and all(isinstance(a, (int, bytes)) and not isinstance(a, bool) for a in args[1:]):
+                # the struct module on constants (a table of byte patterns built at import): computed, as any constant expression
+                import struct as _struct
+                try:
+                    return getattr(_struct, key.split('.')[1])(*args)
+                except _struct.error as se:
+                    raise AbsRaise('struct.error', node, implicit=True, msg=str(se))
             if key in ('itertools.chain.from_iterable', 'chain.from_iterable') and len(args) == 1:
                 out = []
                 for part in self.iterate(args[0], node, keep_vars=True):
@@ -3869,7 +3961,7 @@ class AbsInt:
             if isinstance(v, AEnumInt):
                 return None
             return ATypeOf(v)
-        if isinstance(v, (bool, int, float, str, bytes, bytearray, type(None), tuple, list, dict, set, frozenset, range)):
+        if isinstance(v, (bool, int, float, complex, str, bytes, bytearray, type(None), tuple, list, dict, set, frozenset, range)):
             return type(v)
         if isinstance(v, AList) and v.kind in ('list', 'tuple', 'bytes', 'bytearray', 'set', 'frozenset') \
                 and getattr(v, 'cls', None) is None:
@@ -4221,6 +4313,24 @@ class AbsInt:
             if name == 'insert' and len(args) == 2 and isinstance(args[0], int) and not base.has_var():
                 base.items.insert(args[0], args[1])
                 return None
+            if name == 'clear' and not args:
+                del base.items[:]
+                return None
+            if name == 'remove' and len(args) == 1 and not base.has_var():
+                for i_, it_ in enumerate(base.items):
+                    same_ = it_ is args[0]
+                    plain_obj = isinstance(it_, AObj) and it_.cls is not None and self.p.lookup_method(it_.cls, '__eq__')[1] is None \
+                        and '__fields__' not in it_.attrs
+                    if not same_ and not plain_obj:
+                        # (an object of a class without __eq__ equals only itself)
+                        r_ = self.compare(ast.Eq(), it_, args[0], node)
+                        if r_ is None:
+                            raise Unsupported(f'list.remove(): equality with an element is undecided at line {getattr(node, "lineno", "?")}')
+                        same_ = bool(r_)
+                    if same_:
+                        del base.items[i_]
+                        return None
+                raise AbsRaise('ValueError', node, implicit=True, msg='list.remove(x): x not in list')
             if name in ('pop',) and not base.has_var():
                 try:
                     return base.items.pop(*[a for a in args if isinstance(a, int)])
@@ -4294,6 +4404,9 @@ class AbsInt:
                     if ok:
                         return AList(out, base.kind)
                 return Opaque('bytes.translate')
+            if name in ('remove', 'clear', 'rotate', 'extendleft', '__delitem__', '__setitem__', '__iadd__', '__imul__'):
+                # (never pretend a call that changes the list did nothing)
+                raise Unsupported(f'{base.kind}.{name}() in this form is not modelled (line {getattr(node, "lineno", "?")})')
             return Opaque(f'list.{name}')
         if isinstance(base, (list,)) and name in ('append', 'extend'):
             if name == 'append':
